@@ -212,7 +212,7 @@ func runNamePlan(t *testing.T, p namePlan, dir string) (violation string, classe
 				probes = append(probes, fresh.ProbeUDP(k))
 			}
 			for _, pr := range probes {
-				if !pr.OK || pr.User != n {
+				if !pr.OK || pr.User != n || !pr.ReplyOK {
 					violation = fmt.Sprintf("SIG=C20/saved-names-differ after restart the key of %q is accepted=%v as %q", clip([]byte(n), 40), pr.OK, clip([]byte(pr.User), 40))
 					return
 				}
